@@ -106,4 +106,33 @@ Deobfuscate(blocks, sig) ==
 \* ---- the three "no result" classes of the statement ------------------------------------------------
 NoParamList(sig) == ~StartsWith(sig, <<40>>) \/ ~HasByte(sig, 41)
 NoReturnType(sig) == Len(sig) >= 1 /\ sig[Len(sig)] = 41
+\* ---- which descriptors the statement constrains (used by the trace specifications) -----------------
+RECURSIVE CountTypes(_, _)
+CountTypes(ps, i) ==
+  IF i > Len(ps) THEN 0
+  ELSE LET j == ScanWhile(ps, i, {91}) IN
+       IF j > Len(ps) THEN 99
+       ELSE IF ps[j] \in PrimLetters THEN 1 + CountTypes(ps, j + 1)
+       ELSE IF ps[j] = 76 THEN
+         LET semi == ScanTo(ps, j + 1, {59}) IN
+         IF semi > Len(ps) \/ semi = j + 1 THEN 99 ELSE 1 + CountTypes(ps, semi + 1)
+       ELSE 99
+
+ValidDescriptor(sig) ==
+  /\ StartsWith(sig, <<40>>) /\ HasByte(sig, 41)
+  /\ LET body == Tail(sig)
+         rp == ScanTo(body, 1, {41})
+         ps == Slice(body, 1, rp)
+         ret == From(body, rp + 1)
+     IN  /\ ~HasByte(ret, 41) /\ ~HasByte(ps, 40) /\ ~HasByte(ret, 40)
+         /\ CountTypes(ps, 1) < 99 /\ ~HasByte(ps, 86)
+         /\ CountTypes(ret, 1) = 1
+
+SigMustBeNone(sig) ==
+  \/ NoParamList(sig) \/ NoReturnType(sig)
+  \/ LET body == Tail(sig)
+         rp == RScanTo(body, 1, Len(body) + 1, {41})
+         ret == From(body, rp + 1)
+         j == ScanWhile(ret, 1, {91})
+     IN  j <= Len(ret) /\ ret[j] = 76 /\ ret[Len(ret)] # 59
 =============================================================================
